@@ -243,6 +243,9 @@ class StubSim(mosaik_api_v3.Simulator):
             return -1
         if kind == "frac":
             return time + 1.5
+        if kind == "npfrac":
+            import numpy
+            return numpy.float64(time + 1.5)     # a numpy scalar that is not a whole number
         if kind == "float":
             return float(time + 1)
         if kind == "str":
